@@ -377,6 +377,20 @@ def trace_cfg(d, flags, name="Trace_run.cfg"):
     return name
 
 
+WHY = {"malformed": "malformed record (harness)", "panic": "the parser panicked",
+       "must-reject": "accepted, but the specification marks this byte string invalid",
+       "must-accept": "a valid encoding (possibly followed by other bytes) must be accepted as itself, consuming exactly its length",
+       "over-consumed": "consumed more than the input", "unwritable": "accepted a value that cannot be serialised again",
+       "reparse-differs": "the re-serialisation of the accepted value does not parse to the same value",
+       "non-canonical": "accepted a second representation: the re-serialisation differs from the consumed bytes",
+       "misplaced-end": "end record out of place", "missing-end": "missing end record"}
+
+
+def why_text(detail):
+    code = (detail or "").split(",")[-1].strip().strip('"')
+    return code, WHY.get(code, code)
+
+
 def is_dangling(r):
     return r["out"] == "acc" and r["pv"] == "v4" and not r["psap"] and r["wrote"] and not r["reser_eq"] and r["dvb"] \
         and r["reparse"] == "same_fields"
@@ -411,10 +425,10 @@ def judge_trace(ctx, d, recs, cases_by_id, hcases, flags, tag, seed):
         if n < 1 or n > len(recs):
             raise lib.ToolError("trace rejected at its end marker (%s)" % detail[:300])
         bad = recs[n - 1]
-        if "malformed record" in detail:
+        code, why = why_text(detail)
+        if code == "malformed":
             raise lib.ToolError("the driver produced a malformed record: %s" % json.dumps(bad)[:600])
         case = cases_by_id.get(bad["c"]) if bad["ver"] != "hdr" else [h for h in hcases if h["solLen"] == bad["c"]][0]
-        why = detail.split(", ", 2)[-1].strip('"') if detail else ""
         lib.violation(ctx, {"property": "C03", "kind": "mutant", "seed": seed,
                             "case": {k: case[k] for k in case if k not in ("muts",)},
                             "mutant": {"m": bad["m"], "t": bad.get("t"), "at": bad.get("at", 0), "cut": bad.get("cut", 0),
@@ -499,7 +513,7 @@ def run(ctx):
     if not ctx.violations or ctx.violations and totals.get("replay_mismatches", 0) < 50:
         validated = robustness(ctx, d, bins, cases, hcases, totals, flags)
     if not ctx.violations:
-        if totals["version_branch_pairs"] != len(PAIRS):
+        if totals["version_branch_pairs"] < len(PAIRS):
             raise lib.ToolError("vacuity: %d (version, branch) pairs replayed" % totals["version_branch_pairs"])
     ctx.traces = totals.get("transactions", 0) + totals.get("block_headers", 0) + validated
     ctx.extra["replay"] = {k: v for k, v in totals.items()}
@@ -573,9 +587,10 @@ def replay(ctx, path):
         write_trace(tp, [rec])
         ok, n, detail, r = lib.tlc_validate(ctx, d, "Trace_Codec", trace_cfg(d, flags), tp, timeout=600)
         if not ok:
-            if "malformed record" in detail:
+            code, why = why_text(detail)
+            if code == "malformed":
                 raise lib.ToolError("replay record malformed: %s" % json.dumps(rec)[:500])
-            lib.violation(ctx, rep, "parser robustness: %s - %s (input %s%s)" % (describe_record(rec), detail.split(", ", 2)[-1].strip('"'),
+            lib.violation(ctx, rep, "parser robustness: %s - %s (input %s%s)" % (describe_record(rec), why,
                                                                                rec.get("hex", "")[:400], "..." if len(rec.get("hex", "")) > 400 else ""))
     else:
         raise lib.ToolError("unknown replay kind %s" % kind)
